@@ -86,6 +86,7 @@ func runC08(r *Report) {
 	c08R4(r, ch, sh)
 	c08R5(r)
 	c08R6(r)
+	c08ReadExact(r, "R6")
 }
 
 // storesToByteIndex: stores of constants into slice element [idx] of a make([]byte, 4) slice.
@@ -1528,4 +1529,72 @@ func selectionSites(f *ssa.Function) []selSite {
 		}
 	})
 	return out
+}
+
+// c08ReadExact: Conn.Read runs through the cipher exactly the bytes the connection returned: XORKeyStream over b[:n]
+// for the n of the underlying Read in the same call.  Decrypting the whole buffer advances the keystream past bytes
+// that were never received; everything after the first short read (every read, on a real TCP connection) is garbage.
+func c08ReadExact(r *Report, rule string) {
+	p := r.P
+	rd := p.Func("crypto", "Conn.Read")
+	if !r.Anchor(rule, "crypto.(*Conn).Read", rd != nil) {
+		return
+	}
+	n := 0
+	for _, f := range p.SrcFuncs() {
+		if relPkg(f) != "crypto" || !(f == rd || p.inUnitOf(enclosingNamed(f), rd)) {
+			continue
+		}
+		// counts returned by reads of the underlying connection in this function
+		counts := map[ssa.Value]bool{}
+		allInstrs(f, func(in ssa.Instruction) {
+			c, ok := in.(*ssa.Call)
+			if !ok || !c.Call.IsInvoke() || c.Call.Method.Name() != "Read" {
+				return
+			}
+			if ex := extractOf(c, 0); ex != nil {
+				counts[ex] = true
+			}
+		})
+		isCount := func(v ssa.Value) bool {
+			v = stripIntConv(v)
+			if counts[v] {
+				return true
+			}
+			// a named result: n, err = c.conn.Read(b) stores the count in the result cell
+			if ld, ok := v.(*ssa.UnOp); ok {
+				if al, isAl := ld.X.(*ssa.Alloc); isAl {
+					for _, ref := range *al.Referrers() {
+						if st, oks := ref.(*ssa.Store); oks && st.Addr == ssa.Value(al) && counts[stripIntConv(st.Val)] {
+							return true
+						}
+					}
+				}
+			}
+			return false
+		}
+		allInstrs(f, func(in ssa.Instruction) {
+			c, ok := in.(*ssa.Call)
+			if !ok || !isStdCall(c, "crypto/rc4", "Cipher", "XORKeyStream") || len(c.Call.Args) != 3 {
+				return
+			}
+			n++
+			r.Fn(f)
+			good := true
+			for _, a := range c.Call.Args[1:] {
+				sl, isSl := a.(*ssa.Slice)
+				if !isSl || sl.High == nil || !isCount(sl.High) {
+					good = false
+				}
+				if isSl && sl.Low != nil {
+					if k, okk := constInt(sl.Low); !okk || k != 0 {
+						good = false
+					}
+				}
+			}
+			r.Check(good, rule, fname(f)+"/decrypts-exactly-what-was-read", c.Pos(), "the cipher is run over b[:n] for the count n the connection returned",
+				"Conn.Read runs the RC4 keystream over something other than the n bytes the connection just returned (b[:n]): after a short read the keystream is ahead of the data and every later byte is decrypted wrongly")
+		})
+	}
+	r.Sentinel(rule+".read-decrypt", n, 1)
 }
